@@ -246,6 +246,12 @@ func init() {
 				c17strata = numericStrata(ctx, "C17", true, []string{"--extra-imports"})
 			}
 			if i >= len(c17strata) {
+				// names the generated code uses itself (the type called Plain next to additionalProperties, ...)
+				if k := i - len(c17strata); k < ctx.N(32, 160) {
+					c := internalNameCase(k, r)
+					c.Args = append(c.Args, "--extra-imports")
+					return c
+				}
 				return nil
 			}
 			return c17strata[i]
@@ -582,5 +588,83 @@ func collisionTripleCase(i int, r *sg.Rng) *sem.Case {
 		c.Docs = append(c.Docs, docgen.Doc{V: jsonx.Obj{{K: key, V: good}}, Class: "collision", Label: "own-schema"}, docgen.Doc{V: jsonx.Obj{{K: key, V: wrong}}, Class: "collision", Label: "other-schema"})
 	}
 	c.Docs = append(c.Docs, docgen.Doc{V: doc, Class: "collision", Label: "all-own"}, docgen.Doc{V: bad, Class: "collision", Label: "all-other"})
+	return c
+}
+
+// InternalNames are identifiers the generated code itself uses (local type and variable names of the unmarshalers,
+// imported packages, method names, predeclared identifiers). Schema authors are free to use them as definition,
+// property or file names; the generated code must keep working.
+var InternalNames = []string{"plain", "Plain", "Plain_0", "raw", "value", "st", "err", "j", "v", "i", "json", "yaml", "fmt", "reflect", "errors", "regexp",
+	"strings", "time", "mapstructure", "additionalProperties", "AdditionalProperties", "enumValues", "unmarshalJSON", "UnmarshalYAML", "marshalJSON",
+	"string", "int", "error", "len", "nil", "true", "any", "type", "interface", "map", "func", "string_", "Type", "Error", "String", "Elem", "Decode"}
+
+// internalNameCase: definitions / properties / root type named after identifiers of the generated code, every one
+// with validators (so that an unmarshaler is generated) and one object that has declared properties next to typed
+// additionalProperties.
+func internalNameCase(i int, r *sg.Rng) *sem.Case {
+	root := &sg.Schema{Types: []string{"object"}}
+	doc := jsonx.Obj{}
+	pick := func(k int) string { return InternalNames[(i*3+k*7)%len(InternalNames)] }
+	names := []string{"plain"}
+	rootMode := (i / 2) % 4
+	if i%4 == 3 || rootMode != 0 {
+		// when the root type itself is called Plain no definition may normalise to the same name (collisions get
+		// order-dependent suffixes, DESIGN §3.11)
+		names = nil
+	}
+	for k := 0; len(names) < 4; k++ {
+		nm := pick(k)
+		dup := false
+		for _, x := range names {
+			dup = dup || strings.EqualFold(x, nm)
+		}
+		if rootMode != 0 && (strings.EqualFold(nm, "plain") || nm == "Plain_0") {
+			dup = true
+		}
+		if !dup {
+			names = append(names, nm)
+		}
+	}
+	for k, nm := range names {
+		d := &sg.Schema{Types: []string{"object"}, Props: []sg.Prop{
+			{Name: "text", S: &sg.Schema{Types: []string{"string"}, MinLen: 2}},
+			{Name: "count", S: &sg.Schema{Types: []string{"integer"}, Min: sg.Fp(1), Default: jsonx.N(3), HasDefault: true}},
+		}, Required: []string{"text"}}
+		val := jsonx.Obj{{K: "text", V: "hello"}}
+		switch k % 3 {
+		case 1:
+			d.AddProps = &sg.Schema{Types: []string{"integer"}}
+			val = append(val, jsonx.KV{K: "zextra", V: jsonx.N(7)})
+		case 2:
+			d.Props = append(d.Props, sg.Prop{Name: pick(k + 11), S: &sg.Schema{Types: []string{"string"}, Enum: []any{"a", "b"}}})
+		}
+		if i%2 == 0 {
+			root.Defs = append(root.Defs, sg.Prop{Name: nm, S: d})
+			key := fmt.Sprintf("p%d", k)
+			root.Props = append(root.Props, sg.Prop{Name: key, S: &sg.Schema{Ref: "#/$defs/" + nm, Target: d}})
+			doc = append(doc, jsonx.KV{K: key, V: val})
+		} else {
+			root.Props = append(root.Props, sg.Prop{Name: nm, S: d})
+			doc = append(doc, jsonx.KV{K: nm, V: val})
+		}
+	}
+	// an object with declared properties and typed additionalProperties next to the type called Plain
+	ap := &sg.Schema{Types: []string{"object"}, Props: []sg.Prop{{Name: "subject", S: &sg.Schema{Types: []string{"string"}, MinLen: 1}}}, Required: []string{"subject"}, AddProps: &sg.Schema{Types: []string{"integer"}}}
+	root.Props = append(root.Props, sg.Prop{Name: "message", S: ap})
+	doc = append(doc, jsonx.KV{K: "message", V: jsonx.Obj{{K: "subject", V: "s"}, {K: "n1", V: jsonx.N(1)}}})
+	c := &sem.Case{Root: root, Sig: fmt.Sprintf("internal-names/%v", names)}
+	switch rootMode {
+	case 1:
+		// the root type itself is called Plain
+		root.ID = "https://example.com/internal"
+		c.Args = []string{"--schema-root-type", root.ID + "=Plain"}
+		c.RootType = "Plain"
+	case 2:
+		c.RootFile = "plain.json"
+	case 3:
+		root.Title = "Plain"
+		c.Args = []string{"--struct-name-from-title"}
+	}
+	c.Docs = append(c.Docs, docgen.Doc{V: doc, Class: "internalnames", Label: "valid"})
 	return c
 }
